@@ -92,13 +92,14 @@ def emit_schema(decls):
 # ---- model state
 
 class MOpt:
-    __slots__ = ('d', 'vals', 'mod', 'comment')
+    __slots__ = ('d', 'vals', 'mod', 'comment', 'sv')
 
     def __init__(self, d):
         self.d = d
         self.vals = []
         self.mod = False
         self.comment = None
+        self.sv = None            # "simple" options: the value lives in the caller's variable
 
 
 class MSec:
@@ -120,6 +121,7 @@ class MSec:
 def new_opt(d):
     o = MOpt(d)
     if d.simple:
+        o.sv = None if d.typ == 'str' else (d.default or (0.0 if d.typ == 'float' else 0))
         return o
     if d.flags & F_NODEFAULT:
         return o
@@ -145,6 +147,7 @@ def clone_sec(s):
         c = MOpt(o.d)
         c.mod = o.mod
         c.comment = o.comment
+        c.sv = o.sv
         c.vals = [clone_sec(v) if isinstance(v, MSec) else v for v in o.vals]
         n.opts.append(c)
     return n
@@ -182,6 +185,10 @@ def diff_sec(ms, dump, path='', check_mod=True, check_comment=False, sec_mod=Fal
             continue
         vals = do['v']
         if mo.d.simple:
+            got = norm_dump_val(mo.d.typ, do.get('sv')) if do.get('sv') is not None else None
+            exp = float(mo.sv) if (mo.d.typ == 'float' and mo.sv is not None) else mo.sv
+            if got != exp:
+                out.append('%s: simple value %r, expected %r' % (p, got, exp))
             continue
         if len(vals) != len(mo.vals):
             out.append('%s: %d values %r, expected %d %r' % (p, len(vals), short(mo.d.typ, vals), len(mo.vals), short_m(mo.vals)))
